@@ -60,7 +60,7 @@ def gen_files(tier):
                                  'newvr': newvr, 'enc': 1, 'encpad': encpad},
                                 {'eflr': 1, 'type': 3, 'L': 13, 'lb': 'coded'}]}
     # records that span several maximum-size visible records
-    for L, chunk in ((32744, 16372), (20000, 8190)):
+    for L, chunk in ((32744, 16372), (20000, 8190), (70000, 16372)):      # the last: more than 65535 bytes after any small offset
         cuts = list(range(chunk, L, chunk))
         n = len(cuts) + 1
         for opts in ([[0, 0, 0]] * n, [[0, 1, 0]] * n if chunk != 16372 else None):
@@ -118,6 +118,8 @@ def op_menu(recs, lay):
     ops.append(['badfetch', len(recs), 0, -1])
     ops.append(['badfetch', 0, -3, 2])
     ops.append(['seq'])
+    for n in (0, 4, 1000):
+        ops.append(['seqpeek', n])
     ops.append(['reenter'])
     ops.append(['vrs'])
     ops.append(['validate'])
@@ -154,6 +156,24 @@ def step(system, op, check):
             exp = [(r['eflr'], r['type'], r['payload']) for r in system.recs]
             if got != exp:
                 bad.append(({'kind': 'seq_after_fetch_differs'}, 'sequential read gives %r expected %r' % (got, exp)))
+        return bad
+    if op[0] == 'seqpeek':
+        # a sequential read during which the first op[1] bytes of every record delivered are fetched again by position (a scan
+        # that peeks at each record): every record is still delivered, once, in file order, with its payload
+        fr = system.index.rp66v1_file
+        try:
+            got = []
+            for d in fr.iter_logical_records():
+                got.append((d.lr_is_eflr, d.lr_type, d.logical_data.bytes))
+                peek = fr.get_file_logical_data(d.position, 0, op[1]).logical_data.bytes
+                if check and peek != d.logical_data.bytes[:op[1]]:
+                    return [({'kind': 'fetch_bytes', 'entry': 'peek during sequential read'}, 'peek of %d bytes gave %r' % (op[1], peek[:40]))]
+        except Exception as err:  # noqa
+            return [({'kind': 'seq_raises', 'exc': type(err).__name__, 'with_peeks': True}, 'sequential read with peeks of %d bytes: %s: %s' % (op[1], type(err).__name__, err))]
+        if check:
+            exp = [(r['eflr'], r['type'], r['payload']) for r in system.recs]
+            if got != exp:
+                bad.append(({'kind': 'seq_with_peeks_differs'}, 'sequential read with peeks of %d bytes delivers %d records, %d written' % (op[1], len(got), len(exp))))
         return bad
     if op[0] == 'vrs':
         try:
